@@ -1,4 +1,254 @@
+//! C37: the real `Bisector` on TLC-generated problems (MC_Bisect) and on seeded
+//! random larger graphs.  A problem is `{"par":[[..],..],"rng":[..],"X":[..],"S":[..]}`
+//! (nodes 1..n, parents smaller than the node; X = really bad, S = cannot be judged).
+//! The record adds the questions asked in order and the result; Trace_Bisect (TLC)
+//! replays it through the Bisect state machine and judges it.
+use std::collections::HashMap;
+use std::collections::HashSet;
+use std::panic::AssertUnwindSafe;
+
+use jj_lib::backend::CommitId;
+use jj_lib::bisect::BisectionResult;
+use jj_lib::bisect::Bisector;
+use jj_lib::bisect::Evaluation;
+use jj_lib::bisect::NextStep;
+use jj_lib::commit::Commit;
+use jj_lib::repo::Repo as _;
+use jj_lib::revset::ResolvedRevsetExpression;
+use pollster::FutureExt as _;
+use serde_json::Value;
+use serde_json::json;
+use testutils::TestRepo;
+
 use jjconf::util::Opts;
-pub fn run(_opts: &Opts) -> Result<(), String> {
-    Err("not built yet".into())
+use jjconf::util::Out;
+use jjconf::util::Rng;
+use jjconf::util::catch;
+use jjconf::util::read_ndjson;
+
+struct Problem {
+    par: Vec<Vec<usize>>,
+    rng: Vec<usize>,
+    x: Vec<usize>,
+    s: Vec<usize>,
+}
+
+fn idx_list(v: &Value, k: &str) -> Result<Vec<usize>, String> {
+    v.get(k)
+        .and_then(Value::as_array)
+        .ok_or(format!("field {k}"))?
+        .iter()
+        .map(|x| x.as_u64().map(|n| n as usize).ok_or(format!("index in {k}")))
+        .collect()
+}
+
+fn parse(v: &Value) -> Result<Problem, String> {
+    let par = v
+        .get("par")
+        .and_then(Value::as_array)
+        .ok_or("par")?
+        .iter()
+        .map(|ps| {
+            ps.as_array()
+                .ok_or("par".to_string())?
+                .iter()
+                .map(|x| x.as_u64().map(|n| n as usize).ok_or("par index".to_string()))
+                .collect()
+        })
+        .collect::<Result<Vec<Vec<usize>>, String>>()?;
+    Ok(Problem { par, rng: idx_list(v, "rng")?, x: idx_list(v, "X")?, s: idx_list(v, "S")? })
+}
+
+/// Random graph on n nodes (parents among the previous few nodes), a range of the form
+/// ancestors(h) \ ancestors(g), a monotone bad set containing the heads, and a skip set.
+fn random_problem(rng: &mut Rng, max_nodes: usize, with_skips: bool) -> Problem {
+    let n = rng.range(2, max_nodes);
+    let mut par: Vec<Vec<usize>> = vec![];
+    for i in 1..=n {
+        let mut ps = vec![];
+        if i > 1 && !rng.chance(1, 12) {
+            let window = rng.range(1, 4).min(i - 1);
+            ps.push(i - 1 - rng.below(window));
+            if rng.chance(1, 4) && i > 2 {
+                let q = rng.range(1, i - 1);
+                if !ps.contains(&q) {
+                    ps.push(q);
+                }
+            }
+            ps.sort();
+        }
+        par.push(ps);
+    }
+    let anc = ancestors(&par);
+    // range: ancestors of 1-2 heads minus ancestors of 0-1 "good" commits
+    let mut in_rng: HashSet<usize> = HashSet::new();
+    for _ in 0..rng.range(1, 2) {
+        let h = rng.range(n.div_ceil(2), n);
+        in_rng.extend(anc[h - 1].iter().copied());
+    }
+    if rng.chance(1, 2) {
+        let g = rng.range(1, n);
+        for a in &anc[g - 1] {
+            in_rng.remove(a);
+        }
+    }
+    let mut range: Vec<usize> = in_rng.iter().copied().collect();
+    range.sort();
+    // heads of the range
+    let heads: Vec<usize> =
+        range.iter().copied().filter(|&c| !range.iter().any(|&d| d != c && anc[d - 1].contains(&c))).collect();
+    // monotone bad set: the descendants (within the range) of a few random seeds, plus the heads
+    let mut bad: HashSet<usize> = heads.iter().copied().collect();
+    if !range.is_empty() {
+        for _ in 0..rng.range(0, 2) {
+            let seed = *rng.pick(&range);
+            for &d in &range {
+                if anc[d - 1].contains(&seed) {
+                    bad.insert(d);
+                }
+            }
+        }
+    }
+    let mut x: Vec<usize> = bad.into_iter().collect();
+    x.sort();
+    let mut s = vec![];
+    if with_skips && !range.is_empty() {
+        for _ in 0..rng.range(0, 3) {
+            let c = *rng.pick(&range);
+            if !s.contains(&c) {
+                s.push(c);
+            }
+        }
+        s.sort();
+    }
+    Problem { par, rng: range, x, s }
+}
+
+/// ancestors (inclusive) of every node, 1-based node ids
+fn ancestors(par: &[Vec<usize>]) -> Vec<HashSet<usize>> {
+    let mut anc: Vec<HashSet<usize>> = vec![];
+    for (i, ps) in par.iter().enumerate() {
+        let mut a: HashSet<usize> = HashSet::from([i + 1]);
+        for p in ps {
+            a.extend(anc[p - 1].iter().copied());
+        }
+        anc.push(a);
+    }
+    anc
+}
+
+pub fn run(opts: &Opts) -> Result<(), String> {
+    let mut out = Out::create(&opts.str("out", "c37.ndjson"))?;
+    let mut problems = vec![];
+    if let Some(path) = opts.get("cases") {
+        for c in read_ndjson(path)? {
+            problems.push(parse(&c)?);
+        }
+    }
+    let mut rng = Rng::new(opts.u64("seed", 0));
+    let max_nodes = opts.usize("max-nodes", 24);
+    for i in 0..opts.usize("random", 0) {
+        problems.push(random_problem(&mut rng, max_nodes, i % 2 == 1));
+    }
+    let mut i = 0;
+    while i < problems.len() {
+        // a fresh repo every 300 problems keeps the index small
+        let test_repo = TestRepo::init();
+        let end = (i + 300).min(problems.len());
+        for (k, pb) in problems[i..end].iter().enumerate() {
+            out.emit(&record(&test_repo, pb, i + k));
+        }
+        i = end;
+    }
+    out.finish();
+    Ok(())
+}
+
+fn record(test_repo: &TestRepo, pb: &Problem, serial: usize) -> Value {
+    let repo = test_repo.repo.clone();
+    let base = json!({"op":"bisect","par":pb.par,"rng":pb.rng,"X":pb.x,"S":pb.s});
+    let r = catch(AssertUnwindSafe(|| {
+        let mut tx = repo.start_transaction();
+        let mut_repo = tx.repo_mut();
+        let root = repo.store().root_commit();
+        let empty = repo.store().empty_merged_tree();
+        let mut commits: Vec<Commit> = vec![];
+        for (i, ps) in pb.par.iter().enumerate() {
+            let parent_ids: Vec<CommitId> = if ps.is_empty() {
+                vec![root.id().clone()]
+            } else {
+                ps.iter().map(|p| commits[p - 1].id().clone()).collect()
+            };
+            let c = mut_repo
+                .new_commit(parent_ids, empty.clone())
+                .set_description(format!("problem {serial} node {}", i + 1))
+                .write()
+                .block_on()
+                .unwrap();
+            commits.push(c);
+        }
+        let node_of: HashMap<CommitId, usize> =
+            commits.iter().enumerate().map(|(i, c)| (c.id().clone(), i + 1)).collect();
+        let range = ResolvedRevsetExpression::commits(pb.rng.iter().map(|n| commits[n - 1].id().clone()).collect());
+        let bad: HashSet<usize> = pb.x.iter().copied().collect();
+        let skip: HashSet<usize> = pb.s.iter().copied().collect();
+        let mut bisector = Bisector::new(&*mut_repo, range).block_on().unwrap();
+        let mut evals: Vec<usize> = vec![];
+        let node = |c: &Commit| node_of.get(c.id()).copied().unwrap_or(0); // 0 = a commit outside the problem
+        loop {
+            if evals.len() > 4 * pb.par.len() + 8 {
+                return json!({"evals": evals, "kind": "runaway", "bad": [], "possibly": []});
+            }
+            match bisector.next_step().block_on().unwrap() {
+                NextStep::Evaluate(commit) => {
+                    let n = node(&commit);
+                    evals.push(n);
+                    let ev = if skip.contains(&n) {
+                        Evaluation::Skip
+                    } else if bad.contains(&n) {
+                        Evaluation::Bad
+                    } else {
+                        Evaluation::Good
+                    };
+                    bisector.mark(commit.id().clone(), ev);
+                }
+                NextStep::Done(result) => {
+                    let set = |cs: &[Commit]| {
+                        let mut v: Vec<usize> = cs.iter().map(&node).collect();
+                        v.sort();
+                        v.dedup();
+                        v
+                    };
+                    return match result {
+                        BisectionResult::Found(cs) => {
+                            json!({"evals": evals, "kind": "found", "bad": set(&cs), "possibly": [], "dup": cs.len() != set(&cs).len()})
+                        }
+                        BisectionResult::FoundDespiteSkips { bad_commits, possibly_bad } => {
+                            json!({"evals": evals, "kind": "found_despite_skips", "bad": set(&bad_commits),
+                                   "possibly": set(&possibly_bad), "dup": bad_commits.len() != set(&bad_commits).len()})
+                        }
+                        BisectionResult::Indeterminate => {
+                            json!({"evals": evals, "kind": "indeterminate", "bad": [], "possibly": [], "dup": false})
+                        }
+                        BisectionResult::Abort => json!({"evals": evals, "kind": "abort", "bad": [], "possibly": [], "dup": false}),
+                    };
+                }
+            }
+        }
+    }));
+    let mut rec = base;
+    let obj = rec.as_object_mut().unwrap();
+    match r {
+        Ok(v) => {
+            for (k, val) in v.as_object().unwrap() {
+                obj.insert(k.clone(), val.clone());
+            }
+            obj.insert("panic".into(), json!(""));
+        }
+        Err(msg) => {
+            let short: String = msg.chars().take(160).collect();
+            obj.insert("panic".into(), json!(short));
+        }
+    }
+    rec
 }
